@@ -237,11 +237,11 @@ class Project:
             have = snap['files'][n]
             if n in self.prog['rules']:
                 if (want['k'] != 'none') != (have is not None):
-                    diffs.append('file %s: exists=%s, spec says %s' % (n, have is not None, want['k'] != 'none'))
+                    diffs.append(('file', 'file %s: exists=%s, spec says %s' % (n, have is not None, want['k'] != 'none')))
                 continue
             wtxt = None if want['k'] == 'none' else render(want)
             if wtxt != have:
-                diffs.append('file %s: have %r, spec says %r' % (n, have, wtxt))
+                diffs.append(('file', 'file %s: have %r, spec says %r' % (n, have, wtxt)))
         known = set(self.files) | {'//ALWAYS'}
         have_rows = {n: r for n, r in snap['rows'].items() if n in known}
         want_rows = exp['rows']
@@ -249,16 +249,16 @@ class Project:
         horder = [n for n in sorted(have_rows, key=lambda n: have_rows[n]['id']) if n != '//ALWAYS']
         worder = [n for n in sorted(want_rows, key=lambda n: want_rows[n]['id']) if n != '//ALWAYS']
         if horder != worder:
-            diffs.append('row order: have %s, spec says %s' % (horder, worder))
+            diffs.append(('order', 'row order: have %s, spec says %s' % (horder, worder)))
         # the //ALWAYS row always exists in a real database
         for n in sorted(set(have_rows) | set(want_rows)):
             if n not in want_rows:
                 if n == '//ALWAYS':
                     continue
-                diffs.append('row %s: exists, spec has none' % n)
+                diffs.append(('rows', 'row %s: exists, spec has none' % n))
                 continue
             if n not in have_rows:
-                diffs.append('row %s: missing, spec has %s' % (n, want_rows[n]))
+                diffs.append(('rows', 'row %s: missing, spec has %s' % (n, want_rows[n])))
                 continue
             h, wv = have_rows[n], want_rows[n]
 
@@ -284,16 +284,16 @@ class Project:
                     'failed': wv['failed'], 'stamp': wv['stamp'], 'csum': wcs}
             for k in want:
                 if want[k] != got[k]:
-                    diffs.append('row %s.%s: have %r, spec says %r' % (n, k, got[k], want[k]))
+                    diffs.append(('row.' + k, 'row %s.%s: have %r, spec says %r' % (n, k, got[k], want[k])))
         he = set(e for e in snap['edges'] if e[0] in known and e[1] in known)
         we = set((e['t'], e['s'], e['mode'], e['del']) for e in exp['edges'])
         for e in sorted(he - we, key=str):
-            diffs.append('edge %s: in database, not in spec' % (e,))
+            diffs.append(('edge', 'edge %s: in database, not in spec' % (e,)))
         for e in sorted(we - he, key=str):
-            diffs.append('edge %s: in spec, not in database' % (e,))
+            diffs.append(('edge', 'edge %s: in spec, not in database' % (e,)))
         wt = set(exp['tmp'])
         if wt != snap['tmp']:
-            diffs.append('tmp files: have %s, spec says %s' % (sorted(snap['tmp']), sorted(wt)))
+            diffs.append(('tmp', 'tmp files: have %s, spec says %s' % (sorted(snap['tmp']), sorted(wt))))
         return diffs
 
 
@@ -311,7 +311,7 @@ def history_input(h):
     return tuple(step_input(s) for s in h)
 
 
-def replay_group(prog, alts, root, bindir, trace=None, log_mode=None, jflag=None, cmd_timeout=60):
+def replay_group(prog, alts, root, bindir, trace=None, log_mode=None, jflag=None, cmd_timeout=60, cats=None):
     """Execute one user-level history.  `alts` are all specification behaviours with that
     input (they differ where the implementation is legitimately nondeterministic, e.g. the
     poll order of wait_for); the real execution must agree, step by step, with at least one.
@@ -319,6 +319,10 @@ def replay_group(prog, alts, root, bindir, trace=None, log_mode=None, jflag=None
     pj = Project(prog, root, bindir, trace=trace, log_mode=log_mode)
     report = []
     live = list(alts)
+
+    def want(cat):
+        return cats is None or cat in cats or cat.split('.')[0] in cats
+
     for i, step in enumerate(alts[0]):
         a = step['a']
         entry = {'input': list(step_input(step))}
@@ -348,11 +352,11 @@ def replay_group(prog, alts, root, bindir, trace=None, log_mode=None, jflag=None
             for h in live:
                 st = h[i]
                 diffs = list(common_diffs)
-                if rc != st['rc']:
+                if rc != st['rc'] and want('rc'):
                     diffs.append('exit status: have %s, spec says %s' % (rc, st['rc']))
-                if sorted(started) != sorted(st['ran']):
+                if sorted(started) != sorted(st['ran']) and want('ran'):
                     diffs.append('scripts run: have %s, spec says %s' % (started, list(st['ran'])))
-                diffs += pj.compare(snap, st['snap'])
+                diffs += [txt for (cat, txt) in pj.compare(snap, st['snap']) if want(cat)]
                 if not diffs:
                     nxt.append(h)
                 elif best is None or len(diffs) < len(best):
